@@ -8,13 +8,25 @@
 //	lookup <vid> => ok <url>… | err              LookupVolumeServerUrl
 //	hold <vid> => found <len> | notfound         GetLocations, the returned slice is KEPT by the "reader"
 //	peek => <url@dc>…                            what the kept slice shows now
+//	conc <rounds> <url@dc>… => final <url@dc>… | anomalies <u,u,…>…
+//	    concurrent schedule: per round a FRESH volume id, one goroutine per listed location (all released
+//	    by one barrier) calls addLocation, two more goroutines keep calling GetLocations /
+//	    LookupVolumeServerUrl meanwhile. Up to <rounds> rounds are run; the round reported is the first
+//	    one whose final slice or whose observed lookups do not list every announced url exactly once
+//	    (else the last round). `final` = the slice after the round (sorted), `anomalies` = observed
+//	    lookup results that listed a url twice or a url never announced.
 //
 // "-" stands for the empty data center.
 package main
 
 import (
 	"fmt"
+	"runtime"
+	"sort"
 	"strconv"
+	"strings"
+	"sync"
+	"sync/atomic"
 
 	"github.com/chrislusf/seaweedfs/weed/wdclient"
 
@@ -102,6 +114,102 @@ func peek() {
 	tr.Op("peek", nil, hx.Guard(func() []string { return entries(held) }))
 }
 
+var concVid uint32 = 1000
+
+func parseEntry(e string) wdclient.Location {
+	i := strings.Index(e, "@")
+	if i < 0 {
+		return wdclient.Location{Url: e}
+	}
+	return wdclient.Location{Url: e[:i], PublicUrl: e[:i] + ".pub", DataCenter: tokDc(e[i+1:])}
+}
+
+// bad: some url twice, or a url outside want
+func badUrls(urls []string, want map[string]bool) bool {
+	seen := map[string]bool{}
+	for _, u := range urls {
+		if seen[u] || !want[u] {
+			return true
+		}
+		seen[u] = true
+	}
+	return false
+}
+
+func conc(rounds int, ents []string) {
+	args := append([]string{strconv.Itoa(rounds)}, ents...)
+	tr.Op("conc", args, hx.Guard(func() []string {
+		locs := make([]wdclient.Location, len(ents))
+		want := map[string]bool{}
+		for i, e := range ents {
+			locs[i] = parseEntry(e)
+			want[locs[i].Url] = true
+		}
+		var final []wdclient.Location
+		var anomalies []string
+		for r := 0; r < rounds; r++ {
+			concVid++
+			vid := concVid
+			start := make(chan struct{})
+			var stop int32
+			var wg, rg sync.WaitGroup
+			var mu sync.Mutex
+			anomalies = anomalies[:0]
+			for i := range locs {
+				wg.Add(1)
+				go func(l wdclient.Location) {
+					defer wg.Done()
+					<-start
+					vm.AddLocation(vid, l)
+				}(locs[i])
+			}
+			for k := 0; k < 2; k++ {
+				rg.Add(1)
+				go func(k int) {
+					defer rg.Done()
+					<-start
+					for atomic.LoadInt32(&stop) == 0 {
+						var urls []string
+						if k == 0 {
+							ls, _ := vm.GetLocations(vid)
+							for _, l := range ls {
+								urls = append(urls, l.Url)
+							}
+						} else {
+							urls, _ = vm.LookupVolumeServerUrl(strconv.Itoa(int(vid)))
+						}
+						runtime.Gosched()
+						if badUrls(urls, want) {
+							mu.Lock()
+							if len(anomalies) < 3 {
+								anomalies = append(anomalies, strings.Join(urls, ","))
+							}
+							mu.Unlock()
+						}
+					}
+				}(k)
+			}
+			close(start)
+			wg.Wait()
+			atomic.StoreInt32(&stop, 1)
+			rg.Wait()
+			final, _ = vm.GetLocations(vid)
+			var fu []string
+			for _, l := range final {
+				fu = append(fu, l.Url)
+			}
+			if len(anomalies) > 0 || badUrls(fu, want) || len(fu) != len(want) {
+				break
+			}
+		}
+		fe := entries(final)
+		sort.Strings(fe)
+		out := append([]string{"final"}, fe...)
+		out = append(out, "|", "anomalies")
+		return append(out, anomalies...)
+	}))
+}
+
 func u32(s string) uint32 {
 	v, _ := strconv.ParseUint(s, 10, 32)
 	return uint32(v)
@@ -127,6 +235,9 @@ func replay(ops [][]string) {
 			hold(u32(o[1]))
 		case o[0] == "peek":
 			peek()
+		case o[0] == "conc" && len(o) >= 3:
+			n, _ := strconv.Atoi(o[1])
+			conc(n, o[2:])
 		}
 	}
 }
@@ -186,5 +297,22 @@ func main() {
 		}
 		locs(4) // never added
 		lookup(4)
+	}
+
+	// ---- concurrent schedules: several update streams announce locations of a fresh volume at the
+	// same moment (same url from every stream / overlapping sets / all different)
+	reset("dc1")
+	rounds := 6000
+	shapes := [][]string{
+		{"u1@dc1", "u1@dc1", "u1@dc1", "u1@dc1", "u1@dc1", "u1@dc1", "u1@dc1", "u1@dc1"},
+		{"u1@dc1", "u1@dc1", "u1@dc1", "u1@dc1", "u2@dc2", "u2@dc2", "u2@dc2", "u2@dc2"},
+		{"u1@dc1", "u2@dc2", "u3@-", "u4@dc1", "u1@dc1", "u2@dc2", "u3@-", "u4@dc1"},
+		{"u1@dc1", "u2@dc2", "u3@-", "u4@dc1", "u5@dc2", "u6@-"},
+		{"u1@-", "u1@-"},
+	}
+	for i := 0; i < a.N(3); i++ {
+		for _, sh := range shapes {
+			conc(rounds, sh)
+		}
 	}
 }
